@@ -33,6 +33,10 @@ pub struct Transaction<SP: StorageProvider, PS> {
     perspective: Option<SP::Perspective>,
     /// Head of the current perspective
     phead: Option<CmdId>,
+    /// Parent location(s) of the current perspective. They have been removed
+    /// from `heads` but are not reachable from any written head until the
+    /// perspective is written, so `locate` must search from them as well.
+    pbase: Prior<Location>,
     /// Written but not committed heads
     heads: BTreeMap<CmdId, Location>,
     /// Tag for associated policy store
@@ -46,6 +50,7 @@ impl<SP: StorageProvider, PS> Transaction<SP, PS> {
             original_heads_offset: None,
             perspective: None,
             phead: None,
+            pbase: Prior::None,
             heads: BTreeMap::new(),
             policy_store: PhantomData,
         }
@@ -71,8 +76,9 @@ impl<SP: StorageProvider, PS: PolicyStore> Transaction<SP, PS> {
         if let Some(found) = storage.get_location(address, buffer)? {
             return Ok(Some(found));
         }
-        // Search from our temporary heads.
-        for &head in self.heads.values() {
+        // Search from our temporary heads, and from the parents of the
+        // in-flight perspective (which are no longer temporary heads).
+        for head in self.heads.values().copied().chain(self.pbase) {
             if let Some(found) = storage.get_location_from(head, address, buffer)? {
                 return Ok(Some(found));
             }
@@ -358,6 +364,7 @@ impl<SP: StorageProvider, PS: PolicyStore> Transaction<SP, PS> {
 
         self.perspective = Some(perspective);
         self.phead = Some(command.id());
+        self.pbase = Prior::Merge(left_loc, right_loc);
 
         Ok(true)
     }
@@ -397,6 +404,7 @@ impl<SP: StorageProvider, PS: PolicyStore> Transaction<SP, PS> {
             .insert(storage.get_linear_perspective(loc)?);
 
         self.phead = Some(parent.id);
+        self.pbase = Prior::Single(loc);
         self.heads.remove(&parent.id);
 
         Ok(p)
